@@ -687,7 +687,11 @@ def load(ins,fmap,nbytes,sign):
         length = fmap(A[ins.b+1][16:32]).zeroextend(src.size)
         new_index = fmap(index + off)
         fmap[dst] = fmap(mem(src+index,sz)).extend(sign,dst.size)
-        new_index = tst(new_index<0, new_index+length, new_index%length)
+        if length._is_cst and length.value == 0:
+            # a circular buffer of length 0: the index update is undefined
+            new_index = top(length.size)
+        else:
+            new_index = tst(new_index<0, new_index+length, new_index%length)
         fmap[A[ins.b+1]] = composer([new_index[0:16],length[0:16]])
         return
     if ins.mode == "Post-increment":
@@ -777,7 +781,11 @@ def store(ins,fmap,nbytes,src=None):
         new_index = index + off
         dst = mem(addr+index,sz)
         fmap[dst] = src
-        new_index = tst(new_index<0, new_index+length, new_index%length)
+        if length._is_cst and length.value == 0:
+            # a circular buffer of length 0: the index update is undefined
+            new_index = top(length.size)
+        else:
+            new_index = tst(new_index<0, new_index+length, new_index%length)
         fmap[A[ins.b+1]] = composer([new_index[0:16],length[0:16]])
         return
     if ins.mode == "Post-increment":
